@@ -206,7 +206,7 @@ func cmdCheck(args []string) int {
 	if *replay != "" {
 		return doReplay(root, *repo, claims, *replay, *tier, seed)
 	}
-	timeout := 20
+	timeout := 12
 	if *tier == "thorough" {
 		timeout = 90
 		noCache = true
@@ -267,6 +267,31 @@ func cmdCheck(args []string) int {
 		}
 	}
 	ds := dischargeAll(ctx, claimed, timeout, *par, os.Getenv("VERIF_DUMP"))
+	nUndecided := 0
+	for _, d := range ds {
+		if !d.OK() {
+			nUndecided++
+		}
+	}
+	var harnessOut string
+	harnessRan := false
+	harnessOK := true
+	harnessT := 0.0
+	runH := func() {
+		if harnessRan || claims.Harness == "" {
+			return
+		}
+		harnessRan = true
+		harnessOK, harnessOut, harnessT = runHarness(*repo, filepath.Join(root, "replay", claims.Harness), claims.HarnessPkg, claims.HarnessRun, *tier, seed, nil)
+	}
+	if nUndecided > 0 {
+		// tie undecided obligations to the real code first; only when the bounded
+		// harness finds no failing input are the solvers given a second chance
+		runH()
+		if harnessOK {
+			retryUndecided(ds, timeout, 12)
+		}
+	}
 	var unclDs []Discharged
 	if *tier == "thorough" {
 		unclDs = dischargeAll(ctx, unclaimed, 20, *par, "")
@@ -299,17 +324,6 @@ func cmdCheck(args []string) int {
 	}
 	violations := 0
 	exit := 0
-	var harnessOut string
-	harnessRan := false
-	harnessOK := true
-	harnessT := 0.0
-	runH := func() {
-		if harnessRan || claims.Harness == "" {
-			return
-		}
-		harnessRan = true
-		harnessOK, harnessOut, harnessT = runHarness(*repo, filepath.Join(root, "replay", claims.Harness), claims.HarnessPkg, claims.HarnessRun, *tier, seed, nil)
-	}
 	// bounded stand-ins and the thorough tier always run the harness
 	if len(claims.Bounded) > 0 || *tier == "thorough" {
 		runH()
@@ -409,6 +423,9 @@ func cmdCheck(args []string) int {
 	}
 	assumptions := append([]string(nil), claims.Assumptions...)
 	assumptions = append(assumptions, ctx.spec.Assumed...)
+	for _, ax := range ctx.spec.Axioms {
+		assumptions = append(assumptions, "axiom "+ax.Name+": "+trunc(ax.Text, 160))
+	}
 	for _, k := range sortedContractKeys(ctx.spec.Contracts) {
 		c := ctx.spec.Contracts[k]
 		if c.Trusted && c.Used {
